@@ -50,21 +50,21 @@ package memtable
 // ascending, sequence number descending, and among equal (key, sequence) the later insert first.  Every link at every
 // level points forward in that order to a member; the level-0 link of a node points to its immediate successor.
 //@ ghost field (*SkipList) in set[*node]
-//@ ghost field (*SkipList) found *node
+//@ ghost witness (*SkipList) found *node
 //@ ghost field (*SkipList) nstamp int
 //@ ghost field (*node) stamp int
 //@ pure func nkey(n *node) bstr = bstr(n.entry.key)
 //@ predicate Before(a *node, b *node) = blt(nkey(a), nkey(b)) || (nkey(a) == nkey(b) && (a.entry.seqNum > b.entry.seqNum || (a.entry.seqNum == b.entry.seqNum && a.stamp > b.stamp)))
 //@ predicate Lt(s *SkipList, a *node, b *node) = b != s.head && (a == s.head || Before(a, b))
 //@ predicate Member(s *SkipList, n *node) = n == s.head || s.in[n]
-//@ predicate SLInv(s *SkipList) = s != nil && s.head != nil && s.head.entry == nil && !s.in[s.head] && 1 <= s.maxHeight && s.maxHeight <= 12 && (forall n *node :: s.in[n] ==> n != nil && n.entry != nil && n.stamp <= s.nstamp) && (forall a *node, b *node :: s.in[a] && s.in[b] && a != b ==> a.stamp != b.stamp) && (forall n *node, l int :: Member(s, n) && 0 <= l && l < 12 ==> load(n.next[l]) == nil || (s.in[load(n.next[l])] && Lt(s, n, load(n.next[l])))) && (forall n *node, m *node :: Member(s, n) && s.in[m] && Lt(s, n, m) ==> load(n.next[0]) != nil && (m == load(n.next[0]) || Lt(s, load(n.next[0]), m)))
+//@ predicate SLInv(s *SkipList) = s != nil && s.head != nil && allocated(s.head) && s.head.entry == nil && !s.in[s.head] && 1 <= s.maxHeight && s.maxHeight <= 12 && (forall n *node :: s.in[n] ==> n != nil && allocated(n) && n.entry != nil && n.stamp <= s.nstamp) && (forall a *node, b *node :: s.in[a] && s.in[b] && a != b ==> a.stamp != b.stamp) && (forall n *node, l int :: Member(s, n) && 0 <= l && l < 12 ==> load(n.next[l]) == nil || (s.in[load(n.next[l])] && Lt(s, n, load(n.next[l])))) && (forall n *node, m *node :: Member(s, n) && s.in[m] && Lt(s, n, m) ==> load(n.next[0]) != nil && (m == load(n.next[0]) || Lt(s, load(n.next[0]), m)))
 
 // Find returns the newest entry of the key in terms of the view (view-level contract; its proof from the list
 // structure is the goal of C18).  Entries satisfy: a value entry has a non-nil value (newEntry).
 //@ func (*SkipList).Find
 //@   safety[C18]
-//@   requires SLInv(s)
-//@   modifies s.found
+//@   requires[INV] SLInv(s)
+//@   modifies nothing
 //@   ghost entry: s.found = nil
 //@   ghost after call (*node).getNext#1: s.found = result
 // representation level (CHECKED): nil exactly when no node of the list carries the key; otherwise the entry of the
@@ -126,22 +126,75 @@ package memtable
 // later insert; other keys are untouched.  seq[k] = sequence number of the winning entry of k.
 //@ ghost field (*SkipList) seq map[bstr]uint64
 //@ predicate Wins(s *SkipList, k bstr, n uint64) = !s.has[k] || n >= s.seq[k]
+// BeforeE(a, e): node a sorts strictly before a new entry e by (key, sequence) - what compareWithEntry(a.entry, e) < 0
+// decides; a new node goes in front of the nodes that are equal to it in (key, sequence) (it has the largest stamp).
+//@ predicate BeforeE(a *node, e *entry) = blt(nkey(a), bstr(e.key)) || (nkey(a) == bstr(e.key) && a.entry.seqNum > e.seqNum)
+//@ predicate PrevOK(s *SkipList, p *node, l int, e *entry) = p != nil && Member(s, p) && (p == s.head || BeforeE(p, e)) && (load(p.next[l]) == nil || !BeforeE(load(p.next[l]), e))
+// The four clauses of SLInv separately (so that each is its own obligation)
+//@ predicate SLBase(s *SkipList) = s != nil && s.head != nil && allocated(s.head) && s.head.entry == nil && !s.in[s.head] && 1 <= s.maxHeight && s.maxHeight <= 12 && (forall n *node :: s.in[n] ==> n != nil && allocated(n) && n.entry != nil && n.stamp <= s.nstamp)
+//@ predicate SLStamps(s *SkipList) = forall a *node, b *node :: s.in[a] && s.in[b] && a != b ==> a.stamp != b.stamp
+//@ predicate SLLinks(s *SkipList) = forall n *node, l int :: Member(s, n) && 0 <= l && l < 12 ==> load(n.next[l]) == nil || (s.in[load(n.next[l])] && Lt(s, n, load(n.next[l])))
+//@ predicate SLSucc(s *SkipList) = forall n *node, m *node :: Member(s, n) && s.in[m] && Lt(s, n, m) ==> load(n.next[0]) != nil && (m == load(n.next[0]) || Lt(s, load(n.next[0]), m))
 //@ func (*SkipList).Insert
-//@   trusted assumed view-level contract (goal of C18: proof from the skiplist representation invariant)
+//@   requires[INV] SLInv(s)
 //@   requires e != nil
-//@   modifies s.has, s.del, s.val, s.seq, s.size, s.maxHeight
-//@   ensures s.has == upd(old(s.has), bstr(e.key), true)
-//@   ensures old(Wins(s, bstr(e.key), e.seqNum)) ==> s.del == upd(old(s.del), bstr(e.key), e.valueType == TypeDeletion) && s.val == upd(old(s.val), bstr(e.key), bstr(e.value)) && s.seq == upd(old(s.seq), bstr(e.key), e.seqNum)
-//@   ensures !old(Wins(s, bstr(e.key), e.seqNum)) ==> s.del == old(s.del) && s.val == old(s.val) && s.seq == old(s.seq)
+//@   modifies s.in, s.nstamp, s.size, s.maxHeight, all(node.next), all(node.stamp), s.has, s.del, s.val, s.seq
+//@   ghost after call newNode#1: s.found = result
+//@   ghost after call (*node).setNext#2: s.in = upd(s.in, node, true)
+//@   ghost after call (*node).setNext#2: node.stamp = ite(level == 0, s.nstamp + 1, node.stamp)
+//@   ghost after call (*node).setNext#2: s.nstamp = ite(level == 0, s.nstamp + 1, s.nstamp)
+// representation level (CHECKED): the invariant is preserved and exactly one node - fresh, carrying e, stamped after every
+// other node - joined the list
+//@   ensures[C18] SLBase(s)
+//@   ensures[C18] SLStamps(s)
+//@   ensures[C18] SLLinks(s)
+//@   ensures[C18] SLSucc(s)
+//@   ensures[C18] s.in == upd(old(s.in), s.found, true) && !old(s.in)[s.found] && s.found.entry == e
+//@   ensures[C18] forall n *node :: s.in[n] && n != s.found ==> n.stamp < s.found.stamp
+// view level (ASSUMED abstraction step from the node set to the has/del/val/seq view used by C01)
+//@   ensures[A] s.has == upd(old(s.has), bstr(e.key), true)
+//@   ensures[A] old(Wins(s, bstr(e.key), e.seqNum)) ==> s.del == upd(old(s.del), bstr(e.key), e.valueType == TypeDeletion) && s.val == upd(old(s.val), bstr(e.key), bstr(e.value)) && s.seq == upd(old(s.seq), bstr(e.key), e.seqNum)
+//@   ensures[A] !old(Wins(s, bstr(e.key), e.seqNum)) ==> s.del == old(s.del) && s.val == old(s.val) && s.seq == old(s.seq)
+//@ func (*SkipList).randomHeight
+//@   ensures[C18] 1 <= result && result <= MaxHeight
+//@ loop (*SkipList).randomHeight#1
+//@   invariant[C18] 1 <= height && height <= MaxHeight
+//@ predicate InsCommon(s *SkipList, node *node, e *entry, height int, currHeight int) = s.found == node && node != nil && node != s.head && node.entry == e && 1 <= height && height <= currHeight && currHeight <= 12
+//@ loop (*SkipList).Insert#1
+//@   invariant[C18] s.found == node && node != nil && node != s.head && node.entry == e && 1 <= height && height <= currHeight && currHeight <= 12 && 0 - 1 <= level && level < currHeight && !s.in[node]
+//@   invariant[C18] Member(s, current) && (current == s.head || BeforeE(current, e))
+//@   invariant[C18] forall l int :: level < l && l < currHeight ==> PrevOK(s, prev[l], l, e)
+//@   invariant[C18] forall l int :: 0 <= l && l < 12 ==> load(node.next[l]) == nil
+//@   invariant[C18] SLInv(s)
+//@ loop (*SkipList).Insert#2
+//@   invariant[C18] InsCommon(s, node, e, height, currHeight) && 0 <= level && level < currHeight && !s.in[node] && next == load(current.next[level])
+//@   invariant[C18] Member(s, current) && (current == s.head || BeforeE(current, e))
+//@   invariant[C18] forall l int :: level < l && l < currHeight ==> PrevOK(s, prev[l], l, e)
+//@   invariant[C18] forall l int :: 0 <= l && l < 12 ==> load(node.next[l]) == nil
+//@   invariant[C18] SLInv(s)
+//@ loop (*SkipList).Insert#3
+//@   invariant[C18] InsCommon(s, node, e, height, currHeight) && 0 <= level && level <= height
+//@   invariant[C18] forall l int :: level <= l && l < height ==> PrevOK(s, prev[l], l, e) && prev[l] != node
+//@   invariant[C18] level == 0 ==> !s.in[node] && s.in == old(s.in) && (forall l int :: 0 <= l && l < 12 ==> load(node.next[l]) == nil)
+//@   invariant[C18] level == 0 ==> SLInv(s)
+//@   invariant[C18] level > 0 ==> s.in == upd(old(s.in), node, true)
+//@   invariant[C18] level > 0 ==> !old(s.in)[node]
+//@   invariant[C18] level > 0 ==> (forall n *node :: s.in[n] && n != node ==> n.stamp < node.stamp)
+//@   invariant[C18] level > 0 ==> SLBase(s)
+//@   invariant[C18] level > 0 ==> SLStamps(s)
+//@   invariant[C18] forall n *node, l int :: Member(s, n) && level <= l && l < 12 ==> load(n.next[l]) != node
+//@   invariant[C18] level == 1 ==> SLLinks(s)
+//@   invariant[C18] level > 1 ==> SLLinks(s)
+//@   invariant[C18] level > 0 ==> SLSucc(s)
 //@ func NewSkipList
-//@   trusted assumed view-level contract (goal of C18)
-//@   ensures result != nil && fresh(result) && (forall k bstr :: !result.has[k])
+//@   ensures[C18] result != nil && fresh(result) && SLInv(result) && (forall n *node :: !result.in[n])
+//@   ensures[A] forall k bstr :: !result.has[k]
 
 // A mutable table takes the insert, an immutable table never changes.
 //@ func (*MemTable).Put
 //@   nonblocking[C15]
 //@   requires m.skipList != nil && lockstate(m.mu) == 0
-//@   modifies m.skipList.has, m.skipList.del, m.skipList.val, m.skipList.seq, m.skipList.size, m.skipList.maxHeight, m.nextSeqNum
+//@   modifies m.skipList.has, m.skipList.del, m.skipList.val, m.skipList.seq, m.skipList.size, m.skipList.maxHeight, m.nextSeqNum, m.skipList.in, m.skipList.nstamp, all(node.next), all(node.stamp)
 //@   ensures[C01,C18] old(m.immutable) ==> m.skipList.has == old(m.skipList.has) && m.skipList.del == old(m.skipList.del) && m.skipList.val == old(m.skipList.val) && m.skipList.seq == old(m.skipList.seq)
 //@   ensures[C01,C18] !old(m.immutable) ==> MTHas(m, bstr(key))
 //@   ensures[C01,C18] !old(m.immutable) && old(Wins(m.skipList, bstr(key), seqNum)) ==> !MTDel(m, bstr(key)) && MTVal(m, bstr(key)) == bstr(value) && m.skipList.seq[bstr(key)] == seqNum
@@ -149,7 +202,7 @@ package memtable
 //@   ensures[C18] m.immutable == old(m.immutable)
 //@ func (*MemTable).Delete
 //@   requires m.skipList != nil && lockstate(m.mu) == 0
-//@   modifies m.skipList.has, m.skipList.del, m.skipList.val, m.skipList.seq, m.skipList.size, m.skipList.maxHeight, m.nextSeqNum
+//@   modifies m.skipList.has, m.skipList.del, m.skipList.val, m.skipList.seq, m.skipList.size, m.skipList.maxHeight, m.nextSeqNum, m.skipList.in, m.skipList.nstamp, all(node.next), all(node.stamp)
 //@   ensures[C01,C18] old(m.immutable) ==> m.skipList.has == old(m.skipList.has) && m.skipList.del == old(m.skipList.del) && m.skipList.val == old(m.skipList.val) && m.skipList.seq == old(m.skipList.seq)
 //@   ensures[C01,C18] !old(m.immutable) ==> MTHas(m, bstr(key))
 //@   ensures[C01,C18] !old(m.immutable) && old(Wins(m.skipList, bstr(key), seqNum)) ==> MTDel(m, bstr(key)) && m.skipList.seq[bstr(key)] == seqNum
@@ -220,3 +273,12 @@ package memtable
 //@   ensures[C18] result != nil && fresh(result) && result.list == m.skipList
 //@   ensures[C18] m.immutable ==> result.snapshotSeq == 0
 //@   ensures[C18] !m.immutable ==> result.snapshotSeq == m.nextSeqNum
+
+// Confinement of the representation (what makes SLInv an object invariant): links, entries and heights of nodes and the
+// head / height of the list are written only by the constructors and by Insert (through setNext) - enumerated over the
+// whole program on every run.
+// (node.entry, node.height and SkipList.head are set in composite literals of the constructors only - the program has no
+// other store to them; the atomic link cells are stored through setNext only, which is not enumerated: unchecked)
+//@ rule[C18] writers (*SkipList).maxHeight : NewSkipList, (*SkipList).Insert
+//@ rule[C18] callers (*node).setNext : pkg/memtable::(*SkipList).Insert
+//@ rule[C18] callers (*SkipList).Insert : pkg/memtable::(*MemTable).Put, pkg/memtable::(*MemTable).Delete
